@@ -582,6 +582,37 @@ func (e *Eval) call(n *Node) Val {
 				v = Val{T: "0", Sort: "Int"}
 			}
 			return Val{T: fmt.Sprintf("(store %s %s %s)", a.T, i.T, v.T), Sort: e.sortOf(a)}
+		case "firstload":
+			// firstload(loc): the value returned by this call's first atomic load of loc
+			v := e.eval(args[0])
+			if v.Addr == nil {
+				e.fail("firstload: not a location")
+			}
+			for _, ev := range x.atomics {
+				if ev.kind == "load" && ev.addr.Key == v.Addr.Key {
+					return Val{T: ev.old, Sort: "Int"}
+				}
+			}
+			e.fail("firstload: the function performs no atomic load of %s", args[0])
+		case "wrote":
+			// wrote(loc, prev, new): some atomic write of this call changed loc from prev to new
+			v := e.eval(args[0])
+			if v.Addr == nil {
+				e.fail("wrote: not a location")
+			}
+			pv, nv := e.eval(args[1]), e.eval(args[2])
+			var ds []string
+			for _, ev := range x.atomics {
+				if ev.addr.Key != v.Addr.Key || ev.kind == "load" {
+					continue
+				}
+				cond := "true"
+				if strings.HasPrefix(ev.kind, "cas:") {
+					cond = strings.TrimPrefix(ev.kind, "cas:")
+				}
+				ds = append(ds, fmt.Sprintf("(and %s %s (= %s %s) (= %s %s) (= %s %s))", ev.live, cond, ev.addr.Ref, v.Addr.Ref, ev.old, pv.T, ev.new, nv.T))
+			}
+			return Val{T: orTerms(ds), Sort: "Bool"}
 		case "deref":
 			// deref(p): the value a pointer to a scalar points to (a location, usable in modifies)
 			v := e.eval(args[0])
